@@ -23,7 +23,8 @@ CONSTANTS
   MaxSize,     \* the log never grows beyond MaxSize entries (indices 0..MaxSize-1)
   Workers,     \* worker identities 1..N; a run starts cfg.nw of them
   MaxErrors,   \* budget of transient errors (get-entries and get-sth together)
-  ErrKinds,    \* labels of transient errors ("429", "5xx", "net", "unavail")
+  ErrKinds,    \* labels of transient errors ("429", "5xx", "net", "unavail", and "deadline" / "canceled": a request that
+               \* fails with a deadline / cancellation of its own while the run's context is alive)
   KeepHist,    \* BOOLEAN: maintain the history variables delivered / last
   Configs      \* run configurations explored: records [start, end, batch, nw, cont, init]
                \*   start, end : FetcherOptions.StartIndex / EndIndex (0 = "up to the tree size")
